@@ -258,59 +258,35 @@ Section ScopesProofs.
     split; [exact Hl|]. split; [|exact Hcs]. intros k Hk. apply Hsub. now apply Hincl.
   Qed.
 
-  (** an automaton whose recorded key lists are the ones add_pattern computes ... *)
-  Lemma match_keys_po fuel (A : automaton K P) pats : match_key_mismatches D fuel A pats = [] ->
-    forall s pk, In s (au_states A) -> In pk (a_matches s) -> po (snd pk).
+  (** an automaton whose recorded key lists have the elements add_pattern computes: every
+      recorded list contains the pattern's own required bindings and every key of its
+      constraints, and nothing that add_pattern does not compute *)
+  Lemma match_keys_cover fuel (A : automaton K P) pats : match_key_mismatches D fuel A pats = [] ->
+    forall s pk, In s (au_states A) -> In pk (a_matches s) ->
+      exists extra cs l, nth_error pats (N.to_nat (fst pk)) = Some (Some (extra, cs))
+        /\ pattern_keys D fuel extra cs = Ok l
+        /\ incl l (snd pk) /\ incl (snd pk) l
+        /\ incl extra (snd pk) /\ forall c, In c cs -> incl (cargs c) (snd pk).
   Proof.
     unfold match_key_mismatches. intros E s pk Hs Hpk.
-    assert (E1 : flat_map (fun pk : N * list K =>
-        match nth_error pats (N.to_nat (fst pk)) with
+    match type of E with ?t = [] => assert (Hall : forall x, ~ In x t) by (intros x Hx; rewrite E in Hx; exact Hx) end.
+    assert (Hbad : forall x, In x (match nth_error pats (N.to_nat (fst pk)) with
         | Some (Some (extra, cs)) =>
             match pattern_keys D fuel extra cs with
-            | Ok l => if list_eqb (keqb D) l (snd pk) then [] else [(a_id s, fst pk)]
+            | Ok l => if same_keys D l (snd pk) then [] else [(a_id s, fst pk)]
             | _ => [(a_id s, fst pk)]
             end
         | _ => [(a_id s, fst pk)]
-        end) (a_matches s) = []).
-    { destruct (flat_map _ (a_matches s)) as [|x xs] eqn:F; [reflexivity|]. exfalso.
-      assert (Hin : In x (flat_map (fun s : astate K P => flat_map (fun pk : N * list K =>
-        match nth_error pats (N.to_nat (fst pk)) with
-        | Some (Some (extra, cs)) =>
-            match pattern_keys D fuel extra cs with
-            | Ok l => if list_eqb (keqb D) l (snd pk) then [] else [(a_id s, fst pk)]
-            | _ => [(a_id s, fst pk)]
-            end
-        | _ => [(a_id s, fst pk)]
-        end) (a_matches s)) (au_states A))).
-      { apply in_flat_map. exists s. split; [exact Hs|]. rewrite F. now left. }
-      rewrite E in Hin. destruct Hin. }
-    assert (E2 : match nth_error pats (N.to_nat (fst pk)) with
-        | Some (Some (extra, cs)) =>
-            match pattern_keys D fuel extra cs with
-            | Ok l => if list_eqb (keqb D) l (snd pk) then [] else [(a_id s, fst pk)]
-            | _ => [(a_id s, fst pk)]
-            end
-        | _ => [(a_id s, fst pk)]
-        end = []).
-    { destruct (match nth_error pats (N.to_nat (fst pk)) with Some (Some (extra, cs)) => _ | _ => _ end) as [|x xs] eqn:F; [reflexivity|].
-      exfalso. assert (Hin : In x []).
-      { rewrite <- E1. apply in_flat_map. exists pk. split; [exact Hpk|]. rewrite F. now left. }
-      destruct Hin. }
-    destruct (nth_error pats (N.to_nat (fst pk))) as [[[extra cs]|]|]; try discriminate.
-    destruct (pattern_keys D fuel extra cs) as [l| |] eqn:Ep; try discriminate.
-    destruct (list_eqb (keqb D) l (snd pk)) eqn:El; [|discriminate].
-    apply (list_eqb_spec (keqb D) keq) in El. subst l. exact (proj1 (pattern_keys_ok fuel extra cs _ Ep)).
+        end) -> False).
+    { intros x Hx. apply (Hall x). apply in_flat_map. exists s. split; [exact Hs|]. apply in_flat_map. exists pk.
+      split; [exact Hpk|exact Hx]. }
+    destruct (nth_error pats (N.to_nat (fst pk))) as [[[extra cs]|]|]; try (exfalso; apply (Hbad (a_id s, fst pk)); now left).
+    destruct (pattern_keys D fuel extra cs) as [l| |] eqn:Ep; try (exfalso; apply (Hbad (a_id s, fst pk)); now left).
+    destruct (same_keys D l (snd pk)) eqn:El; [|exfalso; apply (Hbad (a_id s, fst pk)); now left].
+    unfold same_keys in El. apply andb_true_iff in El as [E1 E3].
+    apply (inclb_incl (keqb D) keq) in E1. apply (inclb_incl (keqb D) keq) in E3.
+    destruct (pattern_keys_ok fuel extra cs l Ep) as [_ [Hex Hcs]].
+    exists extra, cs, l. split; [reflexivity|]. split; [exact Ep|]. split; [exact E1|]. split; [exact E3|].
+    split; [intros k Hk; apply E1; now apply Hex|]. intros c Hc k Hk. apply E1. exact (Hcs c Hc k Hk).
   Qed.
-
-  (** ... gets prerequisite-first, covering scopes from populate_scopes *)
-  Corollary populate_scopes_after_add_pattern fuel fuel' (A : automaton K P) pats order sc :
-    match_key_mismatches D fuel' A pats = [] ->
-    populate_scopes D fuel A order = Ok sc ->
-    Forall2 (fun (s : astate K P) (entry : N * list K) =>
-               fst entry = a_id s
-               /\ po (snd entry)
-               /\ exists cts, cons_transitions s = Ok cts
-                    /\ forall c t, In (c, t) cts -> incl (cargs c) (snd entry))
-            (au_states A) sc.
-  Proof. intros Hm. apply populate_scopes_ok. exact (match_keys_po fuel' A pats Hm). Qed.
 End ScopesProofs.
